@@ -332,8 +332,8 @@ func c17Words(c *Ctx, sample bool) {
 	default:
 		input = c17FileLists[r.Intn(len(c17FileLists))]
 		path := filepath.Join(c.Dir, fmt.Sprintf("c17-%d-%d.txt", c.Case, r.U32()))
-		sep := []string{"\n", " ", "\n\n", "\t"}[r.Intn(4)]
-		if r.Chance(1, 10) { // thousands of words on one line (more than 64 KiB), then more lines
+		sep := []string{"\n", " ", "\n\n", "\t", "\r\n", " \t \n", "\u00a0", "\u2003\n", "\v", "\f"}[r.Intn(10)] // every Unicode white space separates words
+		if r.Chance(1, 10) {                                                                                     // thousands of words on one line (more than 64 KiB), then more lines
 			big := make([]string, 0, 12000)
 			for i := 0; i < 11000; i++ {
 				big = append(big, fmt.Sprintf("word%dx", i))
